@@ -45,7 +45,6 @@ import (
 	ct "github.com/google/certificate-transparency-go"
 	"github.com/google/certificate-transparency-go/client"
 	"github.com/google/certificate-transparency-go/jsonclient"
-	"github.com/google/certificate-transparency-go/scanner"
 	"github.com/google/certificate-transparency-go/trillian/migrillian/configpb"
 	"github.com/google/certificate-transparency-go/trillian/migrillian/core"
 	"github.com/google/certificate-transparency-go/x509"
@@ -481,8 +480,9 @@ func runScenario(sc scenario) func(t *testing.T, x *gate.Exec) {
 			x.Violation("harness", "preordered client: %v", err)
 			return
 		}
-		opts := core.Options{FetcherOptions: scanner.FetcherOptions{BatchSize: sc.Batch, ParallelFetch: sc.Fetchers, Continuous: sc.Continuous, EndIndex: sc.End},
-			Submitters: sc.Submitters, ChannelSize: sc.Chan, NoConsistencyCheck: sc.NoCheck}
+		// the options come from a migration configuration, as in the migrillian binary; a count of 0 is "not specified" (documented default: 1)
+		opts := core.OptionsFromConfig(&configpb.MigrationConfig{BatchSize: int32(sc.Batch), NumFetchers: int32(sc.Fetchers), NumSubmitters: int32(sc.Submitters),
+			ChannelSize: int32(sc.Chan), IsContinuous: sc.Continuous, EndIndex: sc.End, NoConsistencyCheck: sc.NoCheck})
 		el := &election{}
 		ctx, cancel := context.WithCancel(context.Background())
 		defer cancel()
@@ -953,6 +953,11 @@ func scenarios(th bool) []scenario {
 	out = append(out, scenario{N: 2, Dest: "empty", Batch: 2, Fetchers: 1, Submitters: 1, Chan: 1, Continuous: true, Grow: []int{1, 2}, IDFunc: "index", Mode: "run", Faults: 1, Bound: 1, End: 3})
 	out = append(out, scenario{N: 2, Dest: "fork2", Batch: 2, Fetchers: 1, Submitters: 1, Chan: 1, Continuous: true, IDFunc: "cert", Mode: "run", Faults: 1, Bound: 1})
 	out = append(out, scenario{N: 2, Dest: "fork2", Batch: 1, Fetchers: 1, Submitters: 1, IDFunc: "cert", Mode: "run", Restarts: 1, Faults: 1, Bound: 1})
+	// worker counts left out of the configuration
+	for _, fs := range [][2]int{{0, 0}, {1, 0}, {2, 0}, {0, 1}, {0, 2}} {
+		out = append(out, scenario{N: 4, Dest: "empty", Batch: 2, Fetchers: fs[0], Submitters: fs[1], Chan: 2, IDFunc: "cert", Mode: "run", Faults: 1, Bound: 1})
+		out = append(out, scenario{N: 3, Dest: "prefix1", Batch: 1, Fetchers: fs[0], Submitters: fs[1], Chan: 4, IDFunc: "index", Mode: "run", Faults: 0, Bound: 0})
+	}
 	// a quota that stays exhausted: every batch is retried until it is stored, however long the streak
 	for _, q := range []int{3, 4, 5} {
 		out = append(out, scenario{N: 3, Dest: "empty", Batch: 3, Fetchers: 1, Submitters: 1, IDFunc: "cert", Mode: "run", Faults: 1, Bound: 1, Quota: q})
